@@ -251,6 +251,9 @@ class IndexedCache:
 
         :param assignment: The assignment to check.
         """
+        if not self.keys:
+            # nothing is indexed (e.g. the cache of a comparison between constants): no lookup can be answered from here
+            return False
         assignment = {k: v for k, v in assignment.items() if k in self.keys}
         seen = self.seen_set.check(assignment)
         # if not seen:
